@@ -190,10 +190,38 @@ func (t *Term) Bool() bool {
 }
 
 func (t *Term) List() []*Term {
+	if t.Kind == KApp && t.Head == "big_bytes" && len(t.Args) == 5 {
+		return bigBytes(t)
+	}
 	if t.Kind != KList {
 		panic("list expected")
 	}
 	return t.Args
+}
+
+// big_bytes n pat lf0 lfstep crs of coq/Base.v
+func bigBytes(t *Term) []*Term {
+	n, pat, lf0, step, crs := t.Args[0].Int(), t.Args[1].Ints(), t.Args[2].Int(), t.Args[3].Int(), t.Args[4].Ints()
+	cr := map[int]bool{}
+	for _, j := range crs {
+		cr[j] = true
+	}
+	out := make([]*Term, n)
+	for i := 0; i < n; i++ {
+		b := 0
+		switch {
+		case cr[i]:
+			b = 13
+		case cr[i-1]:
+			b = 10
+		case i >= lf0 && (i-lf0)%step == 0:
+			b = 10
+		default:
+			b = pat[i%len(pat)]
+		}
+		out[i] = &Term{Kind: KNum, Num: int64(b)}
+	}
+	return out
 }
 
 // Bytes reads a list of numbers as a byte string
